@@ -189,7 +189,7 @@ class Tracker:
             if key not in ids:
                 ids[key] = "%s%d" % (prefix, len([k for k in ids if k[0] == prefix]) + 1)
             return ids[key]
-        out = {"tid": tid, "cl": {}, "internal": [], "orderPreserving": bool(self.order_preserving and not self.tampered),
+        out = {"tid": tid, "cl": {}, "internal": [], "orderPreserving": bool(self.order_preserving and not self.tampered), "tampered": bool(self.tampered),
                "drained": bool(drained), "goal": bool(goal), "match": self.codes_match(),
                "bothCoded": all(getattr(c, "code_used", None) for c in w.clients.values())}
         for (n, entry, e) in w.internal:
